@@ -12,7 +12,7 @@ Extraction "model.ml"
   Kernels.az_section_init Kernels.az_in Kernels.az_in_raw Kernels.angle_check Kernels.temp_le Kernels.temp_be
   Spec.crossesb Spec.rewindb Spec.in_windowb
   Kernels_gen.SplitStrategyByAngle_newBlock Kernels_gen.SplitStrategyByNum_newBlock Kernels_gen.SplitStrategyBySeq_newPacket
-  Kernels_gen.SplitStrategyBySeq_maxSeq Kernels_gen.AzimuthSection_ctor Kernels_gen.AzimuthSection_in_ Kernels_gen.fn_parseTempInLe Kernels_gen.fn_parseTempInBe Kernels_gen.Trigon_sin Kernels_gen.Trigon_cos Decoder.trig_idx
+  Kernels_gen.SplitStrategyBySeq_maxSeq Kernels_gen.AzimuthSection_ctor Kernels_gen.AzimuthSection_in_ Kernels_gen.fn_parseTempInLe Kernels_gen.fn_parseTempInBe Kernels_gen.fn_parseTimeUTCWithUs Kernels_gen.fn_createTimeUTCWithUs Kernels_gen.Trigon_sin Kernels_gen.Trigon_cos Decoder.trig_idx
   Params_gen.g_TRIG_SIN_LO Params_gen.g_TRIG_SIN_LEN Params_gen.g_TRIG_COS_LO Params_gen.g_TRIG_COS_LEN
   Dyadic.dy_mul_r Dyadic.dy_of_Z Dyadic.dy_trunc Decoder.parse_ymd Decoder.create_ymd Decoder.parse_utc Decoder.create_utc
   Driver.crc_calc Driver.crc_ok Driver.overflow_guard
